@@ -46,11 +46,11 @@ def gen_args(rng, count, dist):
     raise ValueError(dist)
 
 
-def point(name, count, dist, env_kb, stack, opts=(), big=None, mode="-0", env_tiny=0):
+def point(name, count, dist, env_kb, stack, opts=(), big=None, mode="-0", env_tiny=0, cmd_path_len=0):
     """env_kb: environment padding made of few large variables; env_tiny: number of additional tiny variables (each costs the
     kernel a pointer as well as its bytes)."""
     return {"name": name, "count": count, "dist": dist, "env_kb": env_kb, "stack": stack, "opts": list(opts), "big": big, "mode": mode,
-            "env_tiny": env_tiny}
+            "env_tiny": env_tiny, "cmd_path_len": cmd_path_len}
 
 
 def grid(ctx, rng):
@@ -84,6 +84,9 @@ def grid(ctx, rng):
         point("700k x 10 bytes, finite 64MiB stack (more than 6MiB of arguments)", 700000, "10", 1, 64 * MIB),
         point("700k x 10 bytes, finite 1GiB stack", 700000, "10", 1, 1024 * MIB),
         point("700k x 10 bytes, finite 32MiB stack, 4000 tiny environment variables", 700000, "10", 1, 32 * MIB, env_tiny=4000),
+        # a long path to the command: the kernel copies the file name as well as argv[0]
+        point("400k x 1 byte, command reached through a 3300-byte path, 8MiB", 400000, "1", 1, 8 * MIB, cmd_path_len=3300),
+        point("60k x 2 bytes, command reached through a 3900-byte path, 512KiB stack", 60000, "2", 1, 512 * KIB, cmd_path_len=3900),
         # environments made of many tiny variables (pointer cost dominates)
         point("400k x 7 bytes, 4000 tiny environment variables, 8MiB", 400000, "7", 1, 8 * MIB, env_tiny=4000),
         point("100k x 2 bytes, 20000 tiny environment variables, 8MiB", 100000, "2", 1, 8 * MIB, env_tiny=20000),
@@ -157,8 +160,17 @@ def run_point(job):
         def pre():
             soft, hard = resource.getrlimit(resource.RLIMIT_STACK)
             resource.setrlimit(resource.RLIMIT_STACK, (resource.RLIM_INFINITY if stack < 0 else stack, hard))
+        cmd = common.REC
+        if p.get("cmd_path_len"):
+            d = wd
+            while len(d) + 240 < p["cmd_path_len"]:
+                d = os.path.join(d, "d" * 230)
+                os.mkdir(d)
+            cmd = os.path.join(d, "rec")
+            os.symlink(common.REC, cmd)
+            st.inc("points_with_long_command_path")
         argv = ["strace", "-f", "-qq", "-o", slog, "-e", "trace=execve", "-s", "16",
-                common.XARGS] + (["-0"] if p["mode"] == "-0" else []) + p["opts"] + [common.REC]
+                common.XARGS] + (["-0"] if p["mode"] == "-0" else []) + p["opts"] + [cmd]
         rc, out, err, to = common.run_cmd(argv, input=data, env=env, cwd=wd, timeout=900, preexec_fn=pre)
         st.inc("evaluations")
         st.add("distinct", p["name"])
